@@ -95,6 +95,8 @@ def _record(job):
     mode = opts.get("mode")
     csv_opts = dict(opts.get("csv") or {})
     events = []
+    pre_events, pre, pre_valid0 = [], None, 0
+    init, valid0 = [], 0
     saved_tmp = tempfile.tempdir
     ctx = ioproxy.Installed(tf.storages, path) if want_io else contextlib.nullcontext(None)
     d = None
@@ -105,28 +107,56 @@ def _record(job):
             pre = driver.Db(tf, th, kind, False, path=path, ntk=ntk, nfk=nfk,
                             csv_opts={k: v for k, v in csv_opts.items() if k != "access_mode"})
             pts = opts.get("prefill_points") or []
+            pre_valid0 = pre.valid()
             for i in range(0, len(pts), 500):
-                pre.db.insert_multiple([th.point(tf, ap) for ap in pts[i:i + 500]])
+                # the prefill is a history of its own (judged like any other): batches of up to 500 points
+                pa = {"op": "insert_multiple", "ps": pts[i:i + 500], "m": -1, "bad": 0}
+                pexc, pres = pre.execute(pa)
+                if csv_opts.get("flush_on_insert") is False:
+                    continue                      # (rows may still sit in the buffer: nothing to compare the file with yet)
+                pre_events.append({"a": pa, "exc": pexc, "res": pres, "store": pre.contents(), "valid": pre.valid(),
+                                   "ix": {"n": 0, "q": [], "live": [], "fresh": []}})
             pre.close()
         if mode:
             csv_opts["access_mode"] = mode
         with ctx as rec:
-            d = driver.Db(tf, th, kind, bool(ai), path=path, ntk=ntk, nfk=nfk, csv_opts=csv_opts)
-            d.reading_batches = not want_io       # (a producer that reads the database is itself I/O: not while I/O is being judged)
+            try:
+                d = driver.Db(tf, th, kind, bool(ai), path=path, ntk=ntk, nfk=nfk, csv_opts=csv_opts)
+            except Exception as e:
+                if pre is None:
+                    raise
+                # the database cannot be opened on the file the prefill left behind: that is a verdict, not a harness failure
+                init = pre.contents()
+                events.append({"a": {"op": "reopen"}, "exc": type(e).__name__, "res": -1, "store": init, "valid": 0,
+                               "ix": {"n": 0, "q": [], "live": [], "fresh": []}})
+                ops = []
+            if d is not None:
+                d.reading_batches = not want_io       # (a producer that reads the database is itself I/O: not while I/O is being judged)
             if kind == "mem" and opts.get("prefill_points"):
                 d.db.insert_multiple([th.point(tf, ap) for ap in opts["prefill_points"]])
-            init = d.contents()
-            valid0 = d.valid()
+            if d is not None:
+                init = d.contents()
+                valid0 = d.valid()
             last_write = None
+            reads_done = []
             for a in ops:
                 if a["op"] == "__repeat__":
                     if last_write is None:
                         continue
                     a = last_write                 # the previous remove / update exactly as it was resolved
+                    if "u" in a and a["u"].get("fdk") in (1, 2, 4):
+                        # ... with its numbers in their other representation (1.0 for 1, -0.0 for 0): equal values, still no change
+                        a = dict(a, u=dict(a["u"], alt=1 - a["u"].get("alt", 0)))
+                if a["op"] == "__reread__":
+                    if not reads_done:
+                        continue
+                    a = reads_done[-1 - a.get("back", 0) % min(4, len(reads_done))]     # an earlier read exactly as it was resolved
                 if "adapt" in a:
                     a = adapt_op(a, events[-1]["store"] if events else init)
                 if a["op"] in ("remove", "drop_measurement", "update"):
                     last_write = a
+                if a["op"] in READ_C01 | READ_C07 and a not in reads_done[-4:]:
+                    reads_done.append(a)
                 if rec is not None:
                     rec.events = []
                     before = rec.db_bytes()
@@ -165,14 +195,22 @@ def _record(job):
     out = {"id": tid, "kind": kind, "auto_index": ai, "init": init, "valid0": valid0, "events": events}
     if mode:
         out["mode"] = mode
+    if pre_events:
+        out["pre"] = {"id": tid + "~pre", "kind": "csv", "auto_index": 0, "init": [], "valid0": pre_valid0, "events": pre_events}
     return out
+
+
+def prefill_traces(recorded):
+    """detach the prefill histories recorded alongside (see _record) and return them as traces of their own"""
+    return [t.pop("pre") for t in recorded if "pre" in t]
 
 
 def _record_fault(job):
     """job = (id, auto_index, ops, j, k, after, extra point, read ops)
     Re-run ops[:j], then ops[j] with an OSError injected at its k-th I/O call; observe the live
     object, one more insert, close, and the file."""
-    tid, ai, ops, j, k, after, extra, reads = job
+    tid, ai, ops, j, k, after, extra, reads = job[:8]
+    fopts = job[8] if len(job) > 8 else {}
     tf, th = _W["tf"], _W["th"]
     d0 = tempfile.mkdtemp(prefix="f%d-" % os.getpid(), dir=_W["scratch"])
     path = os.path.join(d0, "db.csv")
@@ -183,7 +221,7 @@ def _record_fault(job):
     try:
         tempfile.tempdir = tmpdir
         with ioproxy.Installed(tf.storages, path) as rec:
-            d = driver.Db(tf, th, "csv", bool(ai), path=path, ntk=3, nfk=3)
+            d = driver.Db(tf, th, "csv", bool(ai), path=path, ntk=3, nfk=3, csv_opts=dict(fopts.get("csv") or {}))
             events = []
             init = d.contents()
             valid0 = d.valid()
